@@ -1130,3 +1130,21 @@ impl MapItem for Value {
         }
     }
 }
+
+#[cfg(feature = "verif_hooks")]
+impl MapKeys {
+    /// Dump the table: (cells as rows, indices, len, fix depth)
+    pub fn verif_dump(&self) -> (Value, Vec<usize>, usize, usize) {
+        (
+            self.keys.clone(),
+            self.indices.clone(),
+            self.len,
+            self.fix_stack.len(),
+        )
+    }
+}
+
+#[cfg(feature = "verif_hooks")]
+pub(crate) fn verif_hash_start(key: &Value, capacity: usize) -> usize {
+    val_as_arr!(key, |a| hash_start(a, capacity))
+}
